@@ -231,15 +231,33 @@ func c17Outbound(c *vlib.Ctx) {
 		if sigH == "" {
 			sigH, tsH = tc.SignHMAC.SignatureHeader, tc.SignHMAC.TimestampHeader
 		}
-		for _, now := range boundaryInstants(vs) {
+		// every other configuration keeps ONE deliverer for all its deliveries, as the running
+		// process does, and its clock only moves forward: whatever a deliverer remembers from
+		// earlier deliveries (a version picked while it was the only valid one, a loaded secret)
+		// must not decide a later one
+		instants := boundaryInstants(vs)
+		var shared *dispatcher.HTTPDeliverer
+		var sharedNow time.Time
+		if i%2 == 1 {
+			sort.Slice(instants, func(a, b int) bool { return instants[a].Before(instants[b]) })
+			shared = dispatcher.NewHTTPDeliverer(&http.Client{}, dispatcher.EgressPolicy{})
+			shared.Now = func() time.Time { return sharedNow }
+		}
+		for _, now := range instants {
 			if !r.Chance(0.5) {
 				continue
 			}
 			now := now
 			body := r.Bytes(vlib.Pick(r, []int{0, 1, 17, 300}))
 			method := vlib.Pick(r, []string{"POST", "POST", "", "PUT", "post"})
-			d := dispatcher.NewHTTPDeliverer(&http.Client{}, dispatcher.EgressPolicy{})
-			d.Now = func() time.Time { return now }
+			d := shared
+			if d == nil {
+				d = dispatcher.NewHTTPDeliverer(&http.Client{}, dispatcher.EgressPolicy{})
+				d.Now = func() time.Time { return now }
+			} else {
+				sharedNow = now
+				c.Count("deliveries_through_a_long_lived_deliverer", 1)
+			}
 			mu.Lock()
 			got = got[:0]
 			mu.Unlock()
